@@ -147,6 +147,7 @@ def exec_job(job):
                 order.append(r)
     res["order"] = order
     res["hashseed"] = os.environ.get("PYTHONHASHSEED", "")
+    res["strhash"] = hash("c07-probe") & 0xFFFFFF      # evidence that the hash seed is in force in this interpreter
     return res
 
 
@@ -358,6 +359,22 @@ def fixed_inputs(iid):
         "tpl/Any.j2": USER_TEMPLATE,
     }
     return Inputs(iid, "fixed", files, lookups=["extlib"])
+
+
+def repo_inputs(ctx):
+    """DSDL shipped with the repository that PyDSDL can load offline (no `uavcan`): (root, source directory, sub-path)."""
+    res = []
+    base = REPO / "verification" / "nunavut_test_types"
+    for root, src in (("regulated", base / "test0" / "regulated" / "delimited"), ("mymsgs", base / "nested_array_types" / "mymsgs")):
+        fs = sorted(src.glob("*.dsdl")) if src.is_dir() else []
+        if not fs:
+            ctx.not_exercised("repository fixture %s not found" % src)
+            continue
+        sub = "in/regulated/delimited/" if root == "regulated" else "in/mymsgs/"
+        files = {sub + f.name: f.read_text() for f in fs}
+        files["tpl/Any.j2"] = USER_TEMPLATE
+        res.append((root, files))
+    return res
 
 
 # ------------------------------------------------------------------------------------------------------------------
@@ -723,6 +740,7 @@ class Campaign:
         self.opts = {}
         self.audit_diffs = 0
         self.audit_runs = 0
+        self.strhash = collections.defaultdict(set)   # hash seed -> str hashes seen in the interpreters that ran jobs
 
     def new_inputs(self, make, *a):
         iid = len(self.inputs) + 1
@@ -777,6 +795,8 @@ class Campaign:
         self.ctx.count()
         if opts.audit:
             self.audit_runs += 1
+        if "strhash" in res:
+            self.strhash[amb["seed"]].add(res["strhash"])
         if rec["order"]:
             self.orders[(inputs.id, opts.id)].add(tuple(r for r in res["order"] if file_class(r) != "support"))
         return rid
@@ -1019,8 +1039,8 @@ def model_stimuli(ctx, camp, wit, orders):
                 p[3].append(g)
     n_amb = sum(len(p[2]) for p in pairs.values())
     # (b) order-borne gates: PYTHONHASHSEED 0..K
-    seeds = list(range(1, ctx.pick(5, 12)))
-    per = ctx.pick(2, 25)
+    seeds = list(range(1, ctx.pick(5, 9)))
+    per = ctx.pick(2, 12)
     order_pairs = collections.OrderedDict()
     for (g, lang, dep), shapes in ord_w.items():
         sks = sorted(shapes, key=lambda s: (-len(json.loads(s)["types"]), s))
@@ -1092,7 +1112,7 @@ def random_campaign(ctx, camp):
     rng = ctx.rng
     q = ctx.quick
     sets = [camp.new_inputs(fixed_inputs)]
-    for k in range(ctx.pick(2, 10)):
+    for k in range(ctx.pick(2, 6)):
         for _attempt in range(50):
             cand = rand_inputs(len(camp.inputs) + 1, rng, rng.randint(5, 9) if q else rng.randint(6, 16), rng.randint(3, 5) if q else rng.randint(3, 7))
             if valid_inputs(ctx, cand):
@@ -1101,6 +1121,13 @@ def random_campaign(ctx, camp):
             raise MachineryFailure("could not draw a valid random namespace set")
         camp.inputs[cand.id] = cand
         sets.append(cand)
+    for root, files in repo_inputs(ctx):
+        cand = Inputs(len(camp.inputs) + 1, "repo:" + root, files, root=root)
+        if valid_inputs(ctx, cand):
+            camp.inputs[cand.id] = cand
+            sets.append(cand)
+        else:
+            ctx.not_exercised("repository fixture %s is not accepted by PyDSDL offline" % root)
     specs = []
     for n, i in enumerate(sets):
         for lang in LANGS:
@@ -1196,6 +1223,9 @@ def run(ctx):
     ctx.selftest("a reversed creation order is flagged as drift.order (and nothing else)", tampered(reorder) == "drift.order")
     ctx.cov["traces_validated_against_impl"] -= 5   # the self-test records are not executions of the implementation
 
+    ctx.cov["hash_seeds_in_force"] = {"seeds": sorted(camp.strhash), "distinct_str_hashes": len({h for v in camp.strhash.values() for h in v})}
+    ctx.selftest("PYTHONHASHSEED reaches the interpreters (one str hash per seed, different between seeds)",
+                 all(len(v) == 1 for v in camp.strhash.values()) and len({h for v in camp.strhash.values() for h in v}) >= min(3, len(camp.strhash)))
     n_orders = sum(1 for v in camp.orders.values() if len(v) > 1)
     if not n_orders:
         ctx.not_exercised("no (inputs, options) pair showed more than one file creation order: PYTHONHASHSEED did not change the walk "
@@ -1218,7 +1248,7 @@ def run(ctx):
                        "fixed + seeded random namespace sets x 4 targets x CLI/API option sets x ambient variants (clock+TZ, hash seed, fresh "
                        "subprocess / plain `python -m nunavut` / long-lived worker / the check's interpreter, cwd, relative spelling, three "
                        "absolute locations of different length, output elsewhere); distinct = (front end, target, options, input set[, gates]); "
-                       "non-trivial = every pair is run under at least 3 ambient states" % (ctx.pick(2, 25), ctx.pick(4, 11)))
+                       "non-trivial = every pair is run under at least 3 ambient states" % (ctx.pick(2, 12), ctx.pick(4, 8)))
     ctx.cov["exhaustive"] = False
     ctx.assumptions += [
         "TLC and the GenReproP / GenRepro / GenReproTrace specifications",
